@@ -184,6 +184,9 @@ def join_component_view(component, view):
     """
     if view is None:
         return component
+    if isinstance(view, np.ndarray):
+        # a boolean mask or index array is a single view, not a sequence of views
+        return (component, view)
     result = [component]
     try:
         result.extend(view)
